@@ -50,6 +50,9 @@ def mk_trx(E, pfx="t.", fh=None, name="TRX", child_idx=0, with_clck=False, invar
                                               "rsp_delay_ms": SInt(fz(pfx, "rsp_delay_ms"))}, label=pfx + "ctrl_if")
     if invariant:
         E.assume(class_invariant(pfx))
+    from engine.pyvc.harness import bind_props
+    for o in (a["data_if"], a["ctrl_if"], obj):
+        bind_props(E, o)
     return obj
 
 
